@@ -678,24 +678,26 @@ def setTopUppedArrayOld (arr : List UInt8) (fulfilledBytes : Bool) : Outcome Uni
   let (r, b) := BitString.setTopUppedArray arr fulfilledBytes (BitString.new cellBits)
   (r, { b with cap := cellBits })
 
-/-- `CopyRemaining`: a new cell with the unread bits and the unread references (each reset by `NextRef`); the
-receiver's cursors are restored -/
-def copyRemaining (c : MCell) : Outcome MCell :=
+/-- `CopyRemaining`: a new cell with the unread bits and the unread references; the receiver's cursors are restored.
+The unread references are fetched with `NextRef`, which resets the counters of each referenced cell — the children are
+shared by pointer, so the receiver's unread children are reset too. Returns the copy and the receiver afterwards. -/
+def copyRemaining (c : MCell) : Outcome MCell × MCell :=
+  let unread := (c.refs.drop c.refCursor).map resetCounters
+  let src := mk c.bits (c.refs.take c.refCursor ++ unread) c.refCursor
   match BitString.readRemainingBits c.bits with
   | (.ok b, _) =>
     match newWithBits b with
     | .ok c2 =>
-      let rest := (c.refs.drop c.refCursor).map resetCounters
-      -- refsNums = RefsSize() − refCursor NextRef/AddRef rounds; neither can fail for ≤ 4 references
-      if c.refCursor > c.refs.length then .ok c2
-      else if rest.length > 4 then .panic "too many refs"
-      else .ok (mk c2.bits rest 0)
-    | .err e => .err e
-    | .panic p => .panic p
+      -- refsNums = RefsSize() − refCursor rounds of NextRef/AddRef; neither can fail for ≤ 4 references
+      if c.refCursor > c.refs.length then (.ok c2, c)
+      else if unread.length > 4 then (.panic "too many refs", src)
+      else (.ok (mk c2.bits unread 0), src)
+    | .err e => (.err e, c)
+    | .panic p => (.panic p, c)
   | (.err _, _) =>
     -- ReadRemainingBits drops the error and returns the zero BitString
-    .ok (mk { buf := [], cap := 0, len := 0, rCursor := 0 } ((c.refs.drop c.refCursor).map resetCounters) 0)
-  | (.panic p, _) => .panic p
+    (.ok (mk { buf := [], cap := 0, len := 0, rCursor := 0 } unread 0), src)
+  | (.panic p, _) => (.panic p, c)
 
 end MCell
 end Tongo
